@@ -131,9 +131,8 @@ def regex_lemmas(reg, repo):
             grammar = n.value.value
     outs = []
     if sel is None or grammar is None:
-        o = Oblig("gaftools.gaf:lemma::regex-literals-found", "lemma", [], z3.BoolVal(False))
-        o.inputs = []
-        return [o]
+        # the selection is no longer a literal re.match pattern / tag_regex is gone: undecided (exit 2), not by itself a violation
+        raise Unsupported("regex lemmas: the re.match literal of parse_gaf_line or utils.tag_regex was not found in the source")
     s = z3.String("field")
     selre, _ = _regex_to_z3(sel)
     gram, _ = _regex_to_z3(grammar)
